@@ -32,6 +32,19 @@ func c08Oracle(sc advScenario, r *advResult) error {
 			return verifkit.Violf("C08/transmission-after-return", "write to %v started %v / completed %v, Run returned at %v\n%s", w.Dst, w.Start, w.End, r.RetAt, tl())
 		}
 	}
+	// every packet goes out on the connection that is the interface's current one: once the interface has been
+	// re-initialised, nothing new is written to the connection it had before (the final RA least of all)
+	r.W.mu.Lock()
+	created := map[int]time.Duration{}
+	for _, c := range r.W.conns {
+		created[c.id] = c.created
+	}
+	r.W.mu.Unlock()
+	for _, w := range r.Writes {
+		if next, ok := created[w.Conn+1]; ok && w.Start > next {
+			return verifkit.Violf("C08/write-on-superseded-connection", "write to %v (lifetime %v) at %v on connection %d, which was replaced by connection %d at %v\n%s", w.Dst, w.Lifetime, w.Start, w.Conn, w.Conn+1, next, tl())
+		}
+	}
 	// the final RA
 	var after []simWrite // writes that start at or after the stop
 	inflight := time.Duration(0)
@@ -158,6 +171,11 @@ func c08Gen(t *rapid.T) advScenario {
 		at := stop - back
 		if at < 0 {
 			at = 0
+		}
+		if rapid.IntRange(0, 5).Draw(t, "linkevent") == 0 {
+			// the interface is re-initialised before the stop: the final RA belongs on the connection that is live then
+			sc.Events = append(sc.Events, advEvent{AtNS: at, Kind: "link"})
+			continue
 		}
 		from := rapid.SampledFrom([]string{"fe80::a", "fe80::b", "::", "::", "2001:db8::c"}).Draw(t, "from")
 		sc.Events = append(sc.Events, advEvent{AtNS: at, Kind: "rs", From: from, N: rapid.SampledFrom([]int{1, 1, 2, 20}).Draw(t, "burst")})
